@@ -819,6 +819,21 @@ Definition call_builtin (env : nat) (b : bfn) (args : list val) (kwargs : kwargs
           id <- with_st self_id ;;
           bear_with proto args "Int" (Some (VInt (VObj id) 0))
       end
+  | B_Int_at =>
+      match args with
+      | self :: ix :: _ =>
+          st <- get_st ;;
+          match as_int W st self, as_arr W st ix with
+          | Some _, Some (_, i :: _) =>
+              match as_int W st i, as_range W st i with
+              | None, None => base_at args
+              | _, _ => unsup "bit indexing of ints"
+              end
+          | Some _, Some (_, []) => ret vNil
+          | _, _ => base_at args
+          end
+      | _ => tyerr "Int#at requires at least 2 args"
+      end
   (* ---------- Str ---------- *)
   | B_Str_add => '(s, x, y) <- str_binop "+" args ;;
       st <- get_st ;; ret (VStr (match proto_of W st s with Some p => p | None => wkv W "Str" end) (x ++ y))
@@ -1242,9 +1257,40 @@ Definition call_builtin (env : nat) (b : bfn) (args : list val) (kwargs : kwargs
       | f :: rest => callval env f rest kwargs
       | [] => tyerr "Func#call requires at least 1 arg"
       end
-  | B_Func_eq => unsup "Func#=="
+  | B_Func_eq =>
+      match args with
+      | a :: b :: _ =>
+          if is_wk W a "Func" && is_wk W b "Func" then ret (VBool true) else
+          st <- get_st ;;
+          match as_func W st a with
+          | Some _ => match as_func W st b with
+                      | Some _ => ret (VBool (String.eqb (inspect_v st a) (inspect_v st b)))
+                      | None => ret (VBool false) end
+          | None => match as_builtin W st a, as_builtin W st b with
+                    | Some x, Some y => ret (VBool (bfn_beq x y))
+                    | _, _ => ret (VBool false) end
+          end
+      | _ => tyerr "== requires at least 2 args"
+      end
+  | B_Num_floor =>
+      self <- need (arg0 args) "Num#floor requires at least 1 arg" ;;
+      st <- get_st ;;
+      match as_int W st self with
+      | Some (p, z) => ret (VInt p z)
+      | None => unsup "Num#floor of non-int"
+      end
   | B_Func_B | B_Iter_B => ret (VBool true)
-  | B_Iter_eq => unsup "Iter#=="
+  | B_Iter_eq =>
+      match args with
+      | a :: b :: _ =>
+          if is_wk W a "Iter" && is_wk W b "Iter" then ret (VBool true) else
+          match a, b with
+          | VFunc _, VFunc _ => st <- get_st ;; ret (VBool (String.eqb (inspect_v st a) (inspect_v st b)))
+          | VBIter i, VBIter j => ret (VBool (Nat.eqb i j))
+          | _, _ => ret (VBool false)
+          end
+      | _ => tyerr "== requires at least 2 args"
+      end
   | B_Iter_new =>
       match args with
       | self :: rest =>
@@ -1384,7 +1430,40 @@ Definition call_builtin (env : nat) (b : bfn) (args : list val) (kwargs : kwargs
       | Some id => ret (VObj id)
       | None => ret (wkv W "Err")
       end
-  | B_Kernel_assert | B_Kernel_assertEq => unsup "Kernel assert"
+  | B_Kernel_assert =>
+      v <- need (arg0 args) "assert requires at least 1 arg" ;;
+      t <- truthy_via_B env v ;;
+      if t then ret vNil else s <- insp v ;; raise "AssertionErr" (s ++ " is not truthy")
+  | B_Kernel_assertEq =>
+      match args with
+      | a :: b :: _ =>
+          r <- catch (callprop env a "==" [b] []) ;;
+          match r with
+          | inl (VBool true) => ret vNil
+          | _ => s1 <- insp a ;; s2 <- insp b ;; raise "AssertionErr" (s1 ++ " != " ++ s2)
+          end
+      | _ => tyerr "assertEq requires at least 2 args"
+      end
+  | B_Kernel_assertRaises =>
+      match args with
+      | ety :: m :: f :: _ =>
+          st <- get_st ;;
+          match as_str W st m with
+          | None => s <- insp m ;; tyerr (s ++ " cannot be treated as str")
+          | Some (_, msg) =>
+              r <- catch (callprop env f "call" [] []) ;;
+              match r with
+              | inl _ => raise "AssertionErr" "error must be raised"
+              | inr (k, em) =>
+                  if negb (val_same (wkv W k) ety) then
+                    s <- insp ety ;; raise "AssertionErr" ("wrong type: " ++ k ++ " != " ++ s)
+                  else if negb (String.eqb em msg) then
+                    raise "AssertionErr" ("wrong msg: """ ++ em ++ """ != """ ++ msg ++ """")
+                  else ret vNil
+              end
+          end
+      | _ => tyerr "assertRaises requires at least 3 args"
+      end
   | B_Unknown n => unsup ("builtin " ++ n)
   end.
 
